@@ -62,7 +62,7 @@ def run(ctx):
 
     # ---- feed order of the view
     feed = None
-    with ctx.obligation("C12.1", "key-view accessors agree with the order in which the view is fed", floor=6) as o:
+    def _c12_1(o):
         gsc = Scope(gs.node)
         lists = [n for n in astx.walk_fn(gs.node) if isinstance(n, (ast.Assign, ast.AnnAssign)) and isinstance(n.value, ast.List) and len(n.value.elts) == 4]
         if len(lists) != 1:
@@ -116,13 +116,17 @@ def run(ctx):
             else:
                 o.violated(kinit, kinit.node, "the key view does not store the list it is constructed from")
 
+    with ctx.obligation("C12.1", "key-view accessors agree with the order in which the view is fed", floor=6) as o:
+        _c12_1(o)
+
     with ctx.obligation("C12.2", "excess tuples: joint degree with exactly the edge topology's position decremented by 1", floor=3) as o:
         conform(o, gs, REF_SWAPPED, "get_swapped_joint_excess_degree_key")
         conform(o, prog.method(ci, "get_joint_excess_degree_key"), REF_KEY, "get_joint_excess_degree_key")
         conform(o, prog.func("JointExcessJointDegreeMatrices.get_topology_index"), REF_TOPINDEX, "get_topology_index")
 
     nl = [n for n in sw.body if isinstance(n, ast.For) and txt(n.iter) == e0s_p]
-    with ctx.obligation("C12.3", "the numerator looks up exactly the pairings being created, in the matrix of the edge's topology", floor=3) as o:
+    filtered = []   # numerator products over a FILTERED collection of keys (judged in C12.4)
+    def _c12_3(o):
         if len(nl) != 1:
             o.undecided("numerator loop `for e0 in e0s` not found", sw)
             return
@@ -135,12 +139,31 @@ def run(ctx):
         aug = augs[0]
         top = txt(aug.target)
         factors = []
+        pre_env = {}
+        for s_ in astx.stmts_in(lp.body):
+            if isinstance(s_, ast.Assign) and len(s_.targets) == 1 and isinstance(s_.targets[0], ast.Name) and isinstance(s_.value, (ast.ListComp, ast.GeneratorExp, ast.Tuple, ast.List)):
+                pre_env[s_.targets[0].id] = _subst(s_.value, pre_env)
+        def expand_prod(x):
+            """math.prod(E(key) for key in (k1, k2) [if ..]) -> [E(k1), E(k2)]; a filter is recorded for C12.4."""
+            if not (isinstance(x, ast.Call) and txt(x.func) in ("math.prod", "prod") and len(x.args) == 1 and all(k.arg == "start" and astx.const_value(k.value) == 1 for k in x.keywords)):
+                return None
+            comp = _subst(x.args[0], pre_env)
+            if not (isinstance(comp, (ast.ListComp, ast.GeneratorExp)) and len(comp.generators) == 1 and isinstance(comp.generators[0].target, ast.Name)):
+                return None
+            g = comp.generators[0]
+            it = _subst(g.iter, pre_env)
+            if not isinstance(it, (ast.Tuple, ast.List)):
+                return None
+            if g.ifs:
+                filtered.append((x, g))
+            return [_subst(comp.elt, {g.target.id: e_}) for e_ in it.elts]
         def flat(x):
             if isinstance(x, ast.BinOp) and isinstance(x.op, ast.Mult):
                 flat(x.left)
                 flat(x.right)
             else:
-                factors.append(x)
+                ex = expand_prod(x)
+                factors.extend(ex) if ex is not None else factors.append(x)
         flat(aug.value)
         views = [n for n in ast.walk(lp) if isinstance(n, ast.Call) and txt(n.func) == "self.get_swapped_joint_excess_degree_key"]
         kvname = None
@@ -163,7 +186,8 @@ def run(ctx):
             if b is None and isinstance(f, ast.Subscript):
                 # the matrix may be bound to a local first: resolve it (loop-locally, then function-wide)
                 mtx = ssc.resolve(_subst(f.value, env))
-                b2 = match(pat("self._ejks.ejks[$t]"), mtx) or match(pat("self._ejks._ejks[$t]"), mtx)
+                b2 = match(pat("self._ejks.ejks[$t]"), mtx) or match(pat("self._ejks._ejks[$t]"), mtx) \
+                    or match(pat("self._ejks.ejks.get($t, {})"), mtx) or match(pat("self._ejks._ejks.get($t, {})"), mtx)     # no matrix = no listed pairing
                 if b2 is not None:
                     b = {"t": b2["t"], "k": f.slice}
                 else:
@@ -207,6 +231,9 @@ def run(ctx):
         else:
             o.undecided("key view construction not found", sw)
 
+    with ctx.obligation("C12.3", "the numerator looks up exactly the pairings being created, in the matrix of the edge's topology", floor=3) as o:
+        _c12_3(o)
+
     with ctx.obligation("C12.4", "absent or zero pairing => never accepted", floor=3) as o:
         lp = nl[0]
         aug = [n for n in ast.walk(lp) if isinstance(n, ast.AugAssign) and isinstance(n.op, ast.Mult)][0]
@@ -229,6 +256,25 @@ def run(ctx):
                 else:
                     o.violated(sw, h, f"`except {ht}` does not reject the trial ({'continue/pass' if jumps or not body else txt(body[-1])}): a pairing absent from the target is "
                                       "treated as acceptable and can be manufactured")
+        # a product over only those created pairings that ARE listed in the target: the absent one is skipped, not rejected
+        for call_, g_ in filtered:
+            member = [t_ for t_ in g_.ifs if isinstance(t_, ast.Compare) and len(t_.ops) == 1 and isinstance(t_.ops[0], ast.In) and txt(t_.left) == g_.target.id]
+            if not member:
+                o.undecided(f"the numerator runs over a filtered collection of keys (`{txt(g_.ifs[0])}`)", sw, call_)
+                continue
+            st_ = spar.stmt_of(call_)
+            coll = None
+            for s_ in astx.stmts_in(lp.body):
+                if isinstance(s_, ast.Assign) and len(s_.targets) == 1 and isinstance(s_.targets[0], ast.Name) and any(x is g_ for x in ast.walk(s_.value)):
+                    coll = s_.targets[0].id
+            counted = coll is not None and any(isinstance(x, ast.Call) and txt(x.func) == "len" and x.args and txt(x.args[0]) == coll for x in ast.walk(lp))
+            rejected = any(isinstance(i_, ast.If) and isinstance(x, ast.Compare) and isinstance(x.ops[0], ast.NotIn) and txt(x.comparators[0]) == txt(member[0].comparators[0])
+                           for i_ in ast.walk(lp) if isinstance(i_, ast.If) for x in ast.walk(i_.test))
+            if counted or rejected:
+                o.undecided(f"the numerator runs over the keys that pass `{txt(member[0])}`; whether the others reject the trial is decided elsewhere in the loop", sw, call_)
+            else:
+                o.violated(sw, st_ or call_, f"the numerator multiplies only the created pairings that pass `{txt(member[0])}`: a pairing ABSENT from the target is silently left out of the product "
+                                           "instead of rejecting the trial, so a swap that manufactures a pairing the target does not list can be accepted", shape_free=True)
         # return True only through value > random.random()
         rets = [n for n in astx.walk_fn(sw.node) if isinstance(n, ast.Return)]
         trues = [r for r in rets if not (isinstance(r.value, ast.Constant) and r.value.value is False)]
